@@ -43,7 +43,7 @@ _WARM = {"done": False}
 
 def scenarios(tier):
     k = 1 if tier == "quick" else 8
-    return [("seq", 400 * k), ("par", 240 * k), ("bounds", 48 * (1 if tier == "quick" else 4))]
+    return [("seq", 400 * k), ("par", 240 * k), ("bounds", 48 * (1 if tier == "quick" else 4)), ("long", 24 * k), ("first", 120 * k)]
 
 
 def gen(rng, scenario, tier):
@@ -51,6 +51,22 @@ def gen(rng, scenario, tier):
         return {"cfg": {"p": rng.choice([0.1, 0.3, 0.5, 0.8, 0.95]), "N": rng.choice([2, 5, 20, 60]), "eta": rng.choice([0.5, 0.9, 0.99]),
                         "warning_level": rng.choice([0.05, 0.2]), "detect_level": rng.choice([0.01, 0.1]), "seed": np_seed(rng),
                         "check_seed": rng.randrange(2**31)}, "events": []}
+    if scenario == "long":
+        # a long epoch of a very accurate classifier: single samples then move a rate by less than 1e-5
+        cfg = {"time_decay_factor": rng.choice([0.9, 0.99]), "warning_level": 0.001, "detect_level": 0.0001, "burn_in": 5, "num_mc": 4,
+               "subsample": rng.choice([50, 97]), "rates_tracked": ["tpr", "tnr", "ppv", "npv"], "round_val": 4}
+        ev = []
+        for t in range(rng.randint(700, 1500)):
+            yt = 1 if rng.random() < 0.8 else 0
+            ev.append([yt, yt if rng.random() < 0.997 else 1 - yt, np_seed(rng)])
+        return {"cfg": cfg, "events": ev}
+    if scenario == "first":
+        # no burn-in, fast decay, wide warning band: warnings can fall on the very first samples (index 0)
+        cfg = {"time_decay_factor": rng.choice([0.3, 0.5, 0.7]), "warning_level": rng.choice([0.3, 0.4]), "detect_level": rng.choice([0.01, 0.05]),
+               "burn_in": 0, "num_mc": rng.randint(6, 12), "subsample": 1, "rates_tracked": [r for r in L.RATES if rng.random() < 0.7] or ["tpr"],
+               "round_val": rng.choice([2, 4])}
+        ys, _ = workload.outcomes(rng, rng.randint(8, 40))
+        return {"cfg": cfg, "events": [[yt, yp, np_seed(rng)] for yt, yp in ys]}
     wl = rng.choice([0.3, 0.2, 0.1, 0.05])
     tracked = [r for r in L.RATES if rng.random() < 0.7] or [rng.choice(L.RATES)]
     cfg = {"time_decay_factor": rng.choice([0.5, 0.8, 0.9, 0.99]), "warning_level": wl, "detect_level": wl * rng.choice([1, 0.5, 0.2]),
@@ -113,6 +129,7 @@ def body(case, ctx, lm, log, fac):
     prev = None
     drifts = warns = 0
     mode = "par" if par else "seq"
+    first_sample_warning = False
     for t, (yt, yp, seed) in enumerate(case["events"]):
         ctx.step = t
         if prev == "drift":
@@ -196,6 +213,9 @@ def body(case, ctx, lm, log, fac):
             raise EndRun()
         drifts += got == "drift"
         warns += got == "warning"
+        if t == 0 and got == "warning":
+            first_sample_warning = True
+            ctx.probe("warning_on_the_very_first_sample")
         if hit:
             ctx.probe("bounds_taken_from_cache")
         ctx.obs(got, got_recs, len(sims))
